@@ -424,6 +424,11 @@ impl Typer
 				};
 				return Some(Err(Poison::Error(error)));
 			}
+			if let ValueType::Slice { element_type } = x
+			{
+				// There are no pointers to array views.
+				x = ValueType::Arraylike { element_type };
+			}
 			x = ValueType::Pointer {
 				deref_type: Box::new(x),
 			};
@@ -3042,6 +3047,11 @@ impl Reference
 			else if self.address_depth as usize == 1 + pd
 			{
 				take_address = true;
+				if let ValueType::Slice { element_type } = current_type
+				{
+					// There are no pointers to array views.
+					current_type = ValueType::Arraylike { element_type };
+				}
 				current_type = ValueType::Pointer {
 					deref_type: Box::new(current_type),
 				};
